@@ -647,6 +647,16 @@ class FakeSocket:
             raise OSError(-p, _ros.strerror(-p))
         else:
             n = min(p, len(data))
+        if getattr(self, "pin_during_send", False) and w.points_on:
+            # the system call holds an export of the caller's buffer while other threads run (send() releases the interpreter lock): a
+            # bytes object does not mind; a bytearray cannot be resized meanwhile (BufferError in whoever tries)
+            try:
+                pin = memoryview(data)
+            except TypeError:
+                pin = None
+            w.point()
+            if pin is not None:
+                pin.release()
         chunk = bytes(data[:n])
         self.sent += chunk
         w.obs("send", self.sid, chunk)
